@@ -354,6 +354,9 @@ def tasks(tier, seed):
     from ..contracts import curvesv
     ts = [(task_frames, ()), (task_copies, ()), (task_find_roots_length, ()), (task_float_operands, ())]
     ts += [(verify, (c, m, q, v)) for c, m, q, v in curvesv.ALL if q != "Curve.eval"]
+    from ..contracts import facade2
+    # "KnotVector arithmetic returns deep copies": every non-in-place operator, copy and deepcopy return a new object and leave the operand alone (all vectors)
+    ts += [(verify, (c, m, q, v)) for c, m, q, v in facade2.ALL]
     depth = 2 if tier == "quick" else 3
     nch = 4 if tier == "quick" else 16
     for start in STARTS:
@@ -403,7 +406,7 @@ def replay(o):
 
 
 INFO = dict(
-    assumptions=A.S_COMMON + [A.A11], trusted_base=A.TRUSTED, min_obligations=15, level="other",
+    assumptions=A.S_COMMON + [A.A11, A.A12], trusted_base=A.TRUSTED, min_obligations=15, level="other",
     explanation="C15: frame analysis over the package AST (unbounded): the three private fields are assigned only by __init__, update and the two setters; no back door "
                 "(mangled names, __dict__, setattr); update() rebinds after the error test; no in-place KnotVector mutator is ever applied to a .knotvector attribute in "
                 "curve-level code, and KnotVector operators work on deep copies - so curves sharing a KnotVector object cannot affect each other. Dynamic part "
